@@ -265,5 +265,15 @@ impl VerifOrdMin for usize { open spec fn as_int(self) -> int { self as int } }
 impl VerifOrdMin for u128 { open spec fn as_int(self) -> int { self as int } }
 #[verifier::external_body]
 pub fn verif_ord_min<T: VerifOrdMin>(a: T, b: T) -> (r: T) ensures r == (if a.as_int() <= b.as_int() { a } else { b }) { unimplemented!() }
+/// D14 target (method form, so that `x` may be an array, a reference to one, or a Vec): `x.to_vec()` (element-wise clone)
+pub trait VerifToVec<T> { spec fn tv_view(&self) -> Seq<T>; fn verif_to_vec(&self) -> (r: Vec<T>) ensures r@ == self.tv_view(); }
+impl<T, const N: usize> VerifToVec<T> for [T; N] {
+    open spec fn tv_view(&self) -> Seq<T> { self@ }
+    #[verifier::external_body] fn verif_to_vec(&self) -> (r: Vec<T>) { unimplemented!() }
+}
+impl<T> VerifToVec<T> for Vec<T> {
+    open spec fn tv_view(&self) -> Seq<T> { self@ }
+    #[verifier::external_body] fn verif_to_vec(&self) -> (r: Vec<T>) { unimplemented!() }
+}
 /// D14 target: `arr.to_vec()` (element-wise clone)
 #[verifier::external_body] pub fn verif_arr_to_vec<T, const N: usize>(a: &[T; N]) -> (r: Vec<T>) ensures r@ == a@ { unimplemented!() }
